@@ -22,7 +22,7 @@ PROPS = {
     'C03': hp(['class', 'calls', 'loc', 'jar'], 'Lean: callback_binds, csrf_after_step, and over every history: params_of_latest_initiation, callback_completes_latest (state, nonce and verifier of the most recent initiation); initiation_stores_what_it_sends, consumed, replay_rejected, no_session_on_error, login_completes; tie: class, token-endpoint calls (code, verifier symbol, redirect_uri), Location parameters and the whole jar view after every step; oracle: a session is established only with state/nonce/challenge of the most recent initiation of that browser, replays contact nobody, values never repeat', extra_facts=['randomFromCryptoRand', 'nonceBytes', 'verifierBytes']),
     'C04': hp(['class', 'calls', 'down'], 'Lean: session_continues (any later instance/time within the window), jar_fixed, session_continues_history (any sequence of later requests, each with its own instance), accept_interval; tie: class and provider calls; oracle: own untampered session with exp-now > grace and age <= 24 h must be forwarded with zero provider calls on every instance', extra_facts=['maxCookieSize', 'absoluteSessionTimeoutSec']),
     'C06': hp(['class', 'code', 'down'], 'Lean: isAllowedDomain_iff, rolesGate_iff, wrongly_typed_fails_closed, gate_every_forward, login_rejected; tie: class and status code; oracle: forwarded => reference domain predicate (regex + exact lookup) and reference role predicate on the token of this step'),
-    'C08': hp(['class', 'code', 'calls', 'jar', 'hdrs'], 'Lean: no_refresh_without_token, refresh_completes, refresh_chain (any chain of successive refreshes), refreshed_session_holds, refresh_success, refresh_identity, refresh_grant_failed, refresh_bad_token_not_forwarded, refresh_never_5xx; tie: class, code, grant calls, stored tokens, forwarded identity; oracle: exactly one grant when due, forwarded identity and stored tokens from the new answer, 401/redirect and refresh-token removal on failure', extra_facts=[]),
+    'C08': hp(['class', 'code', 'calls', 'jar', 'hdrs'], 'Lean: no_refresh_without_token, refresh_completes, refresh_chain (any chain of successive refreshes), refreshed_session_holds, refresh_success, refresh_identity, refresh_grant_failed, refresh_bad_token_not_forwarded, refresh_never_5xx; tie: class, code, grant calls, stored tokens, forwarded identity; oracle: exactly one grant when due, forwarded identity and stored tokens from the new answer, 401/redirect and refresh-token removal on failure; family token-real: the default HTTP client against a loopback provider that drops a re-used connection after receiving a grant: still exactly one grant per request', extra_facts=[], extra_runs=[dict(family='token-real', diff=False)]),
     'C10': hp(['class', 'hdrs'], 'Lean: identity_from_session, identity_noninterference, fixed/template names protected, forwarded_headers; tie: the identity and templated headers seen downstream; oracle: each such header is the derived value or absent'),
     'C11': hp(['class', 'loc', 'jar', 'calls'], 'Lean: logout_ends, no_forward_until_new_login (any history after the logout), dead_stays_dead, logout_location, postLogout_resolution, cleared_is_anonymous; tie: class, Location, jar after logout; oracle: Location equals the reference construction, no request forwarded after logout until a new login', extra_facts=[]),
     'C15': hp(['class', 'loc'], 'Lean: stored_path_safe, initiate_stores_local, postLoginTarget_local, local_is_same_origin, callback_redirect_is_local, logout_target; tie: class and Location fields; oracle: origin of every Location as a browser resolves it is the request origin, the provider, or the configured post-logout URI', extra_facts=['maxIncomingPathLength']),
